@@ -874,3 +874,16 @@ for _u in _c17["UNITS"]:
         UNITS.append(_u)
 META["trusted_base"] = list(META.get("trusted_base", [])) + ["units c17.backends.* are the C17 units of the same name (specs/C17/backends*.c) with their trusted base"]
 
+
+
+# ---- C02 units reused (added after seeded change C01-7 was missed): "never dropped" for a task that suspends needs its resume to
+# ---- arrive -- a resume() issued while the target still reads `active` is carried by the helper task set_active_state, which may
+# ---- abort only when the target was re-activated since (C02's contract).  Same templates, same contracts, run here as well.
+_c02 = {"VX_NO_REUSE": True}
+exec(compile(open("/verif/specs/C02/spec.py").read(), "/verif/specs/C02/spec.py", "exec"), _c02)
+for _u in _c02["UNITS"]:
+    if _u.name in ("sts.set_thread_state", "sts.set_active_state"):
+        _u.name = "c02." + _u.name
+        _u.template = "../C02/" + _u.template
+        UNITS.append(_u)
+META["trusted_base"] = list(META.get("trusted_base", [])) + ["units c02.sts.* are the C02 units of the same name (specs/C02/sts.c) with their trusted base"]
